@@ -303,4 +303,38 @@ Proof.
   intros H. cbn. rewrite andb_true_r. apply Nat.ltb_lt. lia.
 Qed.
 
+(* ---------- end to end: a range request on ANY reachable buffer is a window of the written history --- *)
+
+(* The answer to GetLogRange(off, lim) after any operation sequence is the contiguous block of
+   EVERYTHING WRITTEN SO FAR that ends clamp(off) - len lines before the last written line. *)
+Theorem range_of_history (size : nat) ops off lim :
+  let s := run (init size) ops in
+  let r := get_range (buf s) off lim in
+  exists pre post, written ops = pre ++ r ++ post /\
+    Z.of_nat (length post) = (clamp_off (buf s) off - window_len (buf s) off lim)%Z /\
+    Z.of_nat (length r) = window_len (buf s) off lim.
+Proof.
+  cbn zeta. destruct (buffer_suffix size ops) as [[pre0 Hw] _]. cbn zeta in Hw.
+  destruct (get_range_window (buf (run (init size) ops)) off lim) as (pre & post & Hb & Hpre & Hlen).
+  exists (pre0 ++ pre), post. split; [|split; [|exact Hlen]].
+  - rewrite Hw at 1. rewrite Hb at 1. now rewrite <- app_assoc.
+  - apply (f_equal (@length A)) in Hb. rewrite !app_length in Hb. lia.
+Qed.
+
+(* "at least the configured length once that many were written": a request that asks for no more than
+   min(#written, size) lines back is never clamped - it is served with exactly min(lim, off) lines
+   (all off lines when lim < 1), whatever was trimmed in between. *)
+Theorem range_served_in_full (size : nat) ops off lim :
+  (0 <= off <= Z.of_nat (Nat.min (length (written ops)) size))%Z ->
+  let s := run (init size) ops in
+  clamp_off (buf s) off = off /\
+  Z.of_nat (length (get_range (buf s) off lim)) = (if (lim <? 1)%Z then off else Z.min lim off).
+Proof.
+  intros Hoff. cbn zeta. destruct (buffer_suffix size ops) as [_ [Hlo _]]. cbn zeta in Hlo.
+  assert (Hc : clamp_off (buf (run (init size) ops)) off = off) by (unfold clamp_off; lia).
+  split; [exact Hc|].
+  destruct (get_range_window (buf (run (init size) ops)) off lim) as (pre & post & _ & _ & Hlen).
+  rewrite Hlen. unfold window_len. now rewrite Hc.
+Qed.
+
 End P.
